@@ -80,6 +80,13 @@ def run_prop(ctx, pid):
     finally:
         if th is not None:
             th.join()
+        import glob as _glob
+        for f in _glob.glob(os.path.join(BUILD, "coq_eval", "cases_%s_*.v" % ctx.uid("p%d" % os.getpid()))) + \
+                _glob.glob(os.path.join(BUILD, "punish_replay_%s_p%d.json" % (pid, os.getpid()))):
+            try:
+                os.remove(f)
+            except OSError:
+                pass
     if script["err"]:
         if script["err"] == "script stage unavailable":
             cov["script_stage"] = "script stage unavailable"
@@ -202,8 +209,26 @@ def _history_stage(ctx, pid, sp, pr, cov):
                       failing_input=False)
     t4 = time.time()
     if not pr["ok"] and not ctx.violations:
-        ctx.violation("proof_broken", ", ".join(map(str, pr["broken"])) or "Channel/Punish build",
-                      {"log": pr["log"][-4000:]}, signature="proof", failing_input=False)
+        # directed search for a concrete failing input before reporting the broken proof:
+        # more schedules from a different seed, every schedule punished / sampled as usual
+        found = 0
+        rows2, info2 = pc.run_punish_harness(
+            ctx, env={"VERIF_SEED": str(ctx.seed + 1000), "VERIF_CASES": "140"}, suffix="_search",
+            use_cache=False)
+        for row in rows2 or []:
+            fails = pred(row)
+            if fails and found < 2:
+                found += 1
+                ctx.violation("impl_violates_predicate", theorem,
+                              {"case": row.get("case"), "seed": row.get("seed"),
+                               "chan_type": row.get("chan_type"), "fails": fails[:8],
+                               "script": pc.script_of(row)},
+                              signature="%s %s" % (pid.lower(), fails[0][:140]))
+        cov["directed_search_cases"] = len(rows2 or [])
+        if not found:
+            ctx.violation("proof_broken", ", ".join(map(str, pr["broken"])) or "Channel/Punish build",
+                          {"log": pr["log"][-4000:], "searched_cases": len(rows) + len(rows2 or [])},
+                          signature="proof", failing_input=False)
     if ctx.thorough and pr["ok"]:
         okc, outc = ctx.coqchk([sp["module"]])
         cov["coqchk"] = ctx.cov.get("coqchk")
